@@ -1,8 +1,183 @@
 import RecipeGrid.Model.Site
+import RecipeGrid.Lemmas.Site
+/-! C15 — which pages exist: the home page first, one category hierarchy per serving count 1..M plus the
+    unscaled `categories` hierarchy, one page per scalable recipe per serving count, one page per unscalable recipe. -/
 namespace RG.C15
 /-- a recipe stating more servings than M is reported as an error, and only then -/
 theorem too_many_servings_iff (root : Dir) (rootName : Str) (M : Nat) :
     (∃ n, sitePages root rootName M = .error (.maxServingsTooLow n)) ↔ M < maxNativeServings root := by
   unfold sitePages
   split <;> simp_all
+
+-- ================================================================ vocabulary
+/-- `DirAt root dirs d`: following the directory names `dirs` down from `root` reaches the directory `d` -/
+inductive DirAt : Dir → List Str → Dir → Prop
+  | here (d : Dir) : DirAt d [] d
+  | sub {d s d' : Dir} {dirs : List Str} : s ∈ d.subdirs → DirAt s dirs d' → DirAt d (s.name :: dirs) d'
+
+/-- `InTree root dirs r`: recipe file `r` lies in the directory reached from `root` by the names `dirs` -/
+inductive InTree : Dir → List Str → RecipeFile → Prop
+  | here {d : Dir} {r : RecipeFile} : r ∈ d.recipes → InTree d [] r
+  | sub {d s : Dir} {dirs : List Str} {r : RecipeFile} : s ∈ d.subdirs → InTree s dirs r → InTree d (s.name :: dirs) r
+
+/-- the hierarchies of a site with maximum `M`: `none` = `categories`, `some n` = `serves<n>` for 1 ≤ n ≤ M -/
+def Hierarchy (M : Nat) : Option Nat → Prop
+  | none => True
+  | some n => 1 ≤ n ∧ n ≤ M
+
+/-- the two vocabularies agree with the helper predicate used in the lemma file -/
+theorem dirAt_iff (root : Dir) (dirs : List Str) (d : Dir) : DirAt root dirs d ↔ SubDir root dirs d := by
+  constructor
+  · intro h
+    induction h with
+    | here d => exact SubDir.here d
+    | sub hs _ ih => exact SubDir.sub hs ih
+  · intro h
+    induction h with
+    | here d => exact DirAt.here d
+    | sub hs _ ih => exact DirAt.sub hs ih
+
+theorem inTree_iff (root : Dir) (dirs : List Str) (r : RecipeFile) :
+    InTree root dirs r ↔ ∃ d, DirAt root dirs d ∧ r ∈ d.recipes := by
+  constructor
+  · intro h
+    induction h with
+    | here hr => exact ⟨_, DirAt.here _, hr⟩
+    | sub hs _ ih =>
+      obtain ⟨d, hd, hr⟩ := ih
+      exact ⟨d, DirAt.sub hs hd, hr⟩
+  · rintro ⟨d, hd, hr⟩
+    induction hd with
+    | here d => exact InTree.here hr
+    | sub hs _ ih => exact InTree.sub hs (ih hr)
+
+-- ================================================================ C15.1 the home page comes first
+theorem home_first (root : Dir) (rootName : Str) (M : Nat) (ps : List Page) (h : sitePages root rootName M = .ok ps) :
+    ps.head? = some ⟨"/index.html".toList, root.title (some rootName),
+      [hrefRelative "/index.html".toList cssPath]
+        ++ (List.range M).map (fun m => hrefRelative "/index.html".toList (catPath (some (m + 1)) []))
+        ++ [hrefRelative "/index.html".toList (catPath none [])]⟩ := by
+  rw [((sitePages_ok ..).mp h).2]
+  rfl
+
+-- ================================================================ C15.2 a category page per directory per hierarchy
+/-- every directory of the tree has a category page in every hierarchy (`serves1`…`servesM`, `categories`) -/
+theorem category_pages (root : Dir) (rootName : Str) (M : Nat) (ps : List Page) (h : sitePages root rootName M = .ok ps)
+    (dirs : List Str) (d : Dir) (hd : DirAt root dirs d) (sv : Option Nat) (hsv : Hierarchy M sv) :
+    catPath sv dirs ∈ ps.map (·.path) := by
+  obtain ⟨p, hp, hpath⟩ := catPage_complete M sv ((dirAt_iff ..).mp hd) (homeChain root rootName) [] true
+  rw [catDirs_true, List.nil_append] at hpath
+  refine List.mem_map.mpr ⟨p, (mem_sitePages h p).mpr (.inr ⟨sv, ?_, hp⟩), hpath⟩
+  cases sv <;> exact hsv
+
+/-- the root category pages: `/serves<n>/index.html` for every 1 ≤ n ≤ M, and `/categories/index.html` -/
+theorem scaled_roots (root : Dir) (rootName : Str) (M : Nat) (ps : List Page) (h : sitePages root rootName M = .ok ps) :
+    (∀ n, 1 ≤ n → n ≤ M → catPath (some n) [] ∈ ps.map (·.path)) ∧ catPath none [] ∈ ps.map (·.path) :=
+  ⟨fun n h1 h2 => category_pages root rootName M ps h [] root (DirAt.here root) (some n) ⟨h1, h2⟩,
+   category_pages root rootName M ps h [] root (DirAt.here root) none trivial⟩
+
+-- ================================================================ C15.3 recipe pages per serving count
+/-- a scalable recipe has a page (with its title) for every serving count 1..M; its native count is among them -/
+theorem recipe_pages_per_count (root : Dir) (rootName : Str) (M : Nat) (ps : List Page) (h : sitePages root rootName M = .ok ps)
+    (dirs : List Str) (r : RecipeFile) (hr : InTree root dirs r) (native : Nat) (hs : r.servings = some native) :
+    native ≤ M ∧ ∀ n, 1 ≤ n → n ≤ M → ∃ p ∈ ps, p.path = recipePath (some n) dirs r.file ∧ p.title = r.title := by
+  obtain ⟨d, hd, hrd⟩ := (inTree_iff ..).mp hr
+  have hsub := (dirAt_iff ..).mp hd
+  refine ⟨Nat.le_trans (servings_le_max hsub r hrd native hs) ((sitePages_ok ..).mp h).1, ?_⟩
+  intro n h1 h2
+  obtain ⟨p, hp, hpath⟩ := recipePage_complete M (some n) hsub r hrd (by simp [hs]) (homeChain root rootName) [] true
+  rw [catDirs_true, List.nil_append] at hpath
+  exact ⟨p, (mem_sitePages h p).mpr (.inr ⟨some n, ⟨h1, h2⟩, hp⟩), hpath⟩
+
+/-- an unscalable recipe has its (single) page in the `categories` hierarchy -/
+theorem unscalable_recipe_page (root : Dir) (rootName : Str) (M : Nat) (ps : List Page) (h : sitePages root rootName M = .ok ps)
+    (dirs : List Str) (r : RecipeFile) (hr : InTree root dirs r) (hs : r.servings = none) :
+    ∃ p ∈ ps, p.path = recipePath none dirs r.file ∧ p.title = r.title := by
+  obtain ⟨d, hd, hrd⟩ := (inTree_iff ..).mp hr
+  have hsub := (dirAt_iff ..).mp hd
+  obtain ⟨p, hp, hpath⟩ := recipePage_complete M none hsub r hrd (by simp [hs]) (homeChain root rootName) [] true
+  rw [catDirs_true, List.nil_append] at hpath
+  exact ⟨p, (mem_sitePages h p).mpr (.inr ⟨none, trivial, hp⟩), hpath⟩
+
+/-- … and nothing else: every page is the home page, the category page of a directory of the tree in one of the
+    hierarchies, the page of a scalable recipe in a `serves<n>` hierarchy, or the page of an unscalable recipe in
+    `categories` (so an unscalable recipe is rendered exactly once, a scalable one never under `categories`) -/
+theorem pages_classified (root : Dir) (rootName : Str) (M : Nat) (ps : List Page) (h : sitePages root rootName M = .ok ps) :
+    ∀ p ∈ ps, p.path = "/index.html".toList ∨
+      ∃ sv dirs, Hierarchy M sv ∧
+        ((∃ d, DirAt root dirs d ∧ p.path = catPath sv dirs) ∨
+         (∃ r, InTree root dirs r ∧ r.servings.isSome = sv.isSome ∧ p.path = recipePath sv dirs r.file ∧ p.title = r.title)) := by
+  intro p hp
+  rcases (mem_sitePages h p).mp hp with rfl | ⟨sv, hsv, hp⟩
+  · exact .inl rfl
+  · obtain ⟨rel, d', hsub, hcase⟩ := pages_sound M sv root (homeChain root rootName) [] true p hp
+    rw [catDirs_true, List.nil_append] at hcase
+    refine .inr ⟨sv, rel, by cases sv <;> exact hsv, ?_⟩
+    rcases hcase with hc | ⟨r, hr, h1, h2, h3⟩
+    · exact .inl ⟨d', (dirAt_iff ..).mpr hsub, hc⟩
+    · exact .inr ⟨r, (inTree_iff ..).mpr ⟨d', (dirAt_iff ..).mpr hsub, hr⟩, h1, h2, h3⟩
+
+-- ================================================================ C15.4 the number of pages
+mutual
+/-- number of pages of one hierarchy below a directory: one category page per directory, plus one page per
+    scalable recipe (`scaled = true`, a `serves<n>` hierarchy) or per unscalable recipe (`scaled = false`, `categories`) -/
+def hierarchySize (scaled : Bool) : Dir → Nat
+  | .mk _ _ recipes subdirs =>
+    1 + (recipes.filter fun r => r.servings.isSome == scaled).length + hierarchySizeList scaled subdirs
+def hierarchySizeList (scaled : Bool) : List Dir → Nat
+  | [] => 0
+  | d :: ds => hierarchySize scaled d + hierarchySizeList scaled ds
+end
+
+/-- exactly these pages: home page, M scaled hierarchies, one unscaled hierarchy — no page is emitted twice -/
+theorem page_count (root : Dir) (rootName : Str) (M : Nat) (ps : List Page) (h : sitePages root rootName M = .ok ps) :
+    ps.length = 1 + M * hierarchySize true root + hierarchySize false root := by
+  have key : ∀ (sv : Option Nat) (d : Dir) (chain : List (Str × Str)) (dirs : List Str) (isRoot : Bool),
+      (categoryPages M sv chain dirs isRoot d).1.length = hierarchySize sv.isSome d := by
+    intro sv d
+    induction d using Dir.ind with
+    | h n r recs subs ih =>
+      intro chain dirs isRoot
+      rw [length_categoryPages, hierarchySize]
+      have hsum : ∀ (l : List Dir) (chain : List (Str × Str)) (dirs : List Str), (∀ s ∈ l, s ∈ subs) →
+          (l.map fun s => (categoryPages M sv chain dirs false s).1.length).sum = hierarchySizeList sv.isSome l := by
+        intro l chain dirs hl
+        induction l with
+        | nil => rfl
+        | cons s l ihl =>
+          rw [List.map_cons, List.sum_cons, hierarchySizeList, ih s (hl s (by simp)),
+            ihl (fun t ht => hl t (by simp [ht]))]
+      simp only [Dir.subdirs, Dir.recipes]
+      rw [hsum subs _ _ (fun s hs => hs)]
+      omega
+  have hconst : ∀ (l : List Nat) (g : Nat → Nat) (c : Nat), (∀ x ∈ l, g x = c) → (l.map g).sum = l.length * c := by
+    intro l g c hg
+    induction l with
+    | nil => simp
+    | cons x xs ih =>
+      rw [List.map_cons, List.sum_cons, hg x (by simp), ih (fun y hy => hg y (by simp [hy])), List.length_cons]
+      rw [Nat.add_mul]; omega
+  rw [((sitePages_ok ..).mp h).2]
+  simp only [List.length_cons, List.length_append, length_flatMap_eq_sum]
+  rw [hconst (List.range M) _ (hierarchySize true root) (fun m _ => key (some (m + 1)) root _ _ _), key none root]
+  simp only [List.length_range, Option.isSome_none]
+  omega
+
+-- ================================================================ non-vacuity
+/-- a small tree: a scalable recipe at the root, an unscalable one in a sub-directory -/
+def exampleTree : Dir :=
+  .mk "book".toList none [⟨"soup.md".toList, "Soup".toList, some 2⟩]
+    [.mk "Cakes".toList none [⟨"tiffin.md".toList, "Tiffin".toList, none⟩] []]
+
+example : (sitePages exampleTree "book".toList 2).toOption.map (·.map (·.path)) = some
+    ["/index.html".toList,
+     "/serves1/index.html".toList, "/serves1/Cakes/index.html".toList, "/serves1/soup.html".toList,
+     "/serves2/index.html".toList, "/serves2/Cakes/index.html".toList, "/serves2/soup.html".toList,
+     "/categories/index.html".toList, "/categories/Cakes/index.html".toList, "/categories/Cakes/tiffin.html".toList] := by decide
+example : hierarchySize true exampleTree = 3 ∧ hierarchySize false exampleTree = 3 := by decide
+example : InTree exampleTree ["Cakes".toList] ⟨"tiffin.md".toList, "Tiffin".toList, none⟩ :=
+  InTree.sub (s := .mk "Cakes".toList none [⟨"tiffin.md".toList, "Tiffin".toList, none⟩] []) (by simp [exampleTree, Dir.subdirs])
+    (InTree.here (by simp [Dir.recipes]))
+example : ∃ n, sitePages exampleTree "book".toList 1 = .error (.maxServingsTooLow n) :=
+  (too_many_servings_iff ..).mpr (by decide)
 end RG.C15
